@@ -26,6 +26,7 @@ def allDelivered (c : Case) : List Nat :=
 def stopsItself (c : Case) : Bool := c.first || c.limit != 0
 
 def faultCertain (c : Case) : Bool :=
+  (c.ofail != "" && c.op != "ccons" && c.op != "pipe") ||
   c.cancel < 0 && !stopsItself c && c.park < 0 && c.filt == "" && c.op != "pipe" &&
     ((c.mf ≥ 0 && c.mf < c.n && (c.op == "cmap" || c.op == "nest" || c.op == "ccons")) ||
      (c.mp ≥ 0 && c.mp < c.n && (c.op == "cmap" || c.op == "nest" || c.op == "ccons")) ||
@@ -40,9 +41,22 @@ def specTrials (o : Obs) : Bool × String :=
 
 def spec (c : Case) (o : Obs) : Bool × String :=
   if c.trials > 1 then specTrials o else
-  if o.hang != "-" || o.res == "hang" then (false, s!"terminal did not return / deadlock ({o.hang})")
-  else if o.res == "crash" || o.res == "panic" then (false, s!"run ended with {o.res}")
+  let classes := o.res.splitOn "/"
+  if o.hang != "-" || classes.contains "hang" then (false, s!"terminal did not return / deadlock ({o.hang})")
+  else if classes.contains "crash" || classes.contains "panic" then (false, s!"run ended with {o.res}")
   else if o.leak != 0 then (false, s!"{o.leak} goroutines left after the terminal returned")
+  else if c.rep > 1 then
+    -- several materialisations of one stream value: every one must end, none may crash or leave goroutines; a
+    -- certainly-reached failure must show in every materialisation
+    let lastfull := c.kv.flag "lastfull"
+    if lastfull then
+      -- the last materialisation is a plain complete run: it must return nil and deliver every element
+      if classes.getLast? != some "ok" then (false, s!"the final complete materialisation returned {classes.getLast?.getD "?"}")
+      else if c.op != "pipe" && o.kv.nats "lastdel" != allDelivered c then
+        (false, "the final complete materialisation did not deliver every element")
+      else (true, "")
+    else if faultCertain c && classes.contains "ok" then (false, "nil result although an injected failure was reached")
+    else (true, "")
   else if o.res == "ok" && faultCertain c then (false, "nil result although an injected failure was reached")
   else if o.res == "ok" && c.op != "pipe" then
     if stopsItself c then
